@@ -114,12 +114,25 @@ pub struct InternCase {
 }
 
 pub fn intern_body(c: &InternCase, obs: &mut Obs) -> Result<(), String> {
+    // alphabet size: 8 (dense duplicates), 24 or 48 (tables that grow past 16 / 32 entries)
+    let alpha: u8 = [8u8, 24, 48][(c.kind / 3 % 3) as usize];
+    let ops: Vec<IOp> = c
+        .ops
+        .iter()
+        .map(|o| match o {
+            IOp::Intern(i) => IOp::Intern(i % alpha),
+            IOp::Get(i) => IOp::Get(i % alpha),
+            IOp::Resolve(i) => IOp::Resolve(i % alpha),
+            IOp::Elements => IOp::Elements,
+        })
+        .collect();
     let r = match c.kind % 3 {
-        0 => run_interner::<String>(&c.ops, 8, &|i| STR_ALPHA[i as usize % 8].to_string(), obs),
-        1 => run_interner::<u8>(&c.ops, 8, &|i| [0u8, 1, 2, 127, 128, 254, 255, 3][i as usize % 8], obs),
-        _ => run_interner::<(u8, bool)>(&c.ops, 8, &|i| (i / 2, i % 2 == 0), obs),
+        0 => run_interner::<String>(&ops, alpha, &|i| if i < 8 { STR_ALPHA[i as usize].to_string() } else { format!("s{i}") }, obs),
+        1 => run_interner::<u8>(&ops, alpha, &|i| if i < 8 { [0u8, 1, 2, 127, 128, 254, 255, 3][i as usize] } else { 10 + i }, obs),
+        _ => run_interner::<(u8, bool)>(&ops, alpha, &|i| (i / 2, i % 2 == 0), obs),
     };
     obs.class(&format!("interner_kind/{}", c.kind % 3));
+    obs.class(&format!("alphabet/{alpha}"));
     if obs.want_sample() {
         obs.sample(json!({"interner_kind": c.kind % 3, "ops": c.ops}));
     }
@@ -310,7 +323,7 @@ pub fn c12_subs() -> Vec<Box<dyn Sub>> {
             name: "interner",
             quick: 60_000,
             thorough: 2_000_000,
-            strat: Box::new(|| (0u8..3, vec(iop(8), 0..60)).prop_map(|(kind, ops)| InternCase { kind, ops }).boxed()),
+            strat: Box::new(|| (0u8..9, prop_oneof![3 => vec(iop(48), 0..60), 1 => vec(iop(48), 60..200)]).prop_map(|(kind, ops)| InternCase { kind, ops }).boxed()),
             body: Box::new(intern_body),
             guard_death: false,
             max_shrink: 4096,
